@@ -61,13 +61,21 @@ def parse_group(path):
     return g
 
 
-def all_groups():
+def all_groups(repo=None, gen_dir=None):
     out = {}
     if os.path.isdir(KDIR):
         for f in sorted(os.listdir(KDIR)):
             if f.endswith(".rs") and not f.startswith("_"):
                 g = parse_group(os.path.join(KDIR, f))
                 out[g["name"]] = g
+    if repo and gen_dir:
+        import gen_wire_harness
+        paths, notes, n = gen_wire_harness.generate(repo, gen_dir)
+        for pth in paths:
+            g = parse_group(pth)
+            g["generated"] = True
+            out[g["name"]] = g
+        out["__wire_notes"] = dict(notes=notes, n_types=n, names=[os.path.basename(x)[:-3] for x in paths])
     return out
 
 
@@ -109,7 +117,7 @@ def prepare_scratch(repo, groups, scratch):
         dst = os.path.join(hostdir, modname + ".rs")
         shutil.copy2(g["path"], dst)
         with open(host, "a") as fh:
-            fh.write(f"\n#[cfg(any(kani, all(test, verif_replay)))]\n#[allow(dead_code, unused)]\nmod {modname};\n")
+            fh.write(f"\n#[cfg(any(kani, all(test, verif_replay)))]\n#[allow(dead_code, unused, trivial_casts, trivial_numeric_casts, unused_qualifications, clippy::all)]\nmod {modname};\n")
         # contract attributes (inserted bottom-up per file so offsets stay valid)
         byfile = {}
         for c in g["contracts"]:
@@ -238,9 +246,12 @@ def cargo_kani(scratch, crate, harnesses, extra=(), timeout=3600, jobs=None):
 
 def run_groups(group_names, repo, work, prop, tier, seed):
     """returns a list of result dicts (one per group) in the same shape vrun produces"""
-    groups = all_groups()
+    groups = all_groups(repo, os.path.join(work, "wire_gen"))
+    wire_meta = groups.pop("__wire_notes", dict(notes=[], n_types=0, names=[]))
     out = []
     wanted = []
+    if "@wire" in group_names:
+        group_names = [g for g in group_names if g != "@wire"] + wire_meta["names"]
     for gn in group_names:
         if gn not in groups:
             out.append(dict(unit=gn, backend="kani", status="error", failures=[], functions=[], verified=0, errors=0,
@@ -270,8 +281,19 @@ def run_groups(group_names, repo, work, prop, tier, seed):
                                     errors=0, trusted=[], notes=[f"LOST-ANCHOR: {e2}"]))
                 return out
         th = tree_hash(scratch)
+        # generated wire groups are run in one cargo-kani invocation (one build, many harnesses)
+        gen = [g for g in wanted if g.get("generated")]
         for g in wanted:
-            out.append(run_one_group(g, scratch, th, prop, tier))
+            if not g.get("generated"):
+                out.append(run_one_group(g, scratch, th, prop, tier))
+        if gen:
+            merged = dict(name="wire_derive", path=None, host=None, crate=".", contracts=[], generated=True,
+                          harnesses=[h for g in gen for h in g["harnesses"]], text="".join(g["text"] for g in gen))
+            r = run_one_group(merged, scratch, th, prop, tier)
+            r["programs"] = wire_meta["n_types"]
+            if wire_meta["notes"]:
+                r["notes_info"] = wire_meta["notes"]
+            out.append(r)
     finally:
         shutil.rmtree(scratch, ignore_errors=True)
         fcntl.flock(lock, fcntl.LOCK_UN)
@@ -409,8 +431,10 @@ def replay(path, repo):
         print("replay file carries no concrete input (obligation:", rec.get("obligation"), ") — verifier output:")
         print(rec.get("verifier_output", "")[:3000])
         return 1
-    groups = all_groups()
-    g = groups[rp["group"]]
+    gen_dir = os.path.join(SCRATCH_ROOT, "replay_wire_gen")
+    groups = all_groups(repo, gen_dir)
+    groups.pop("__wire_notes", None)
+    g = groups.get(rp["group"]) or [x for x in groups.values() if any(h["name"] == rp["harness"] for h in x["harnesses"])][0]
     scratch = os.path.join(SCRATCH_ROOT, "replay_tree")
     os.makedirs(SCRATCH_ROOT, exist_ok=True)
     try:
